@@ -644,12 +644,14 @@ def velocity(ctx):
     if isinstance(fd, ast.BinOp) and isinstance(fd.op, ast.FloorDiv) and norm_text(fd.right) == SZ1 and c in (0, 1):
       want = nf.rat(E('%s - MIN_MIDI_VELOCITY' % v)) + nf.rat(E(repr(1 - c))) * nf.rat(E(SZ1))
       ok = nf.rat(fd.left).equals(want)
+    elif isinstance(fd, ast.BinOp) and isinstance(fd.op, ast.FloorDiv) and not any(isinstance(x, ast.Call) and dotted(x.func) == '_velocity_bin_size' for x in ast.walk(fd)):
+      ok = False        # located: the bin is a floor division by something that is not the bin size the inverse map multiplies by
     else:
       unk = 'cannot classify: velocity_to_bin returns %s' % norm_text(e)[:80]
   except nf.NFError:
     unk = 'cannot classify: velocity_to_bin returns %s' % norm_text(e)[:80]
-  ctx.ob('VEL/to-bin', tb, r1[0], ok, 'bin = (velocity - MIN) // size + 1' if ok else (unk or 'velocity_to_bin is not (velocity - MIN_MIDI_VELOCITY) // size + 1 (nor (velocity - MIN + size) // size): %s' % norm_text(e)[:80]),
-         unknown=unk)
+  ctx.ob('VEL/to-bin', tb, r1[0], ok, 'bin = (velocity - MIN) // size + 1' if ok else (unk or 'velocity_to_bin is not (velocity - MIN_MIDI_VELOCITY) // size + 1 (nor (velocity - MIN + size) // size) with size = _velocity_bin_size(n), the width velocity_bin_to_velocity multiplies by: %s' % norm_text(e)[:80]),
+         unknown=unk, definite=(not ok and unk is None))
   ok2, unk2 = False, None
   try:
     S = nf.rat(E('_velocity_bin_size(N)'))
